@@ -595,6 +595,7 @@ def run(tier, seed, only=None):
     except Exception:  # noqa: BLE001
         known_sigs = set()
     candidates = {}
+    known_count = [0]
 
     def add(label, plan, msgs):
         for m in msgs:
@@ -609,7 +610,10 @@ def run(tier, seed, only=None):
                     if len(c["examples"]) < 3:
                         c["examples"].append({"scenario": label, "faults": [list(x) for x in plan], "what": m})
                     continue
-            if len(viol) < 40:
+            # known-finding reproductions must never crowd out a real violation: separate caps
+            n_same = sum(1 for v in viol if (v.get("sig") is None) == (sig is None))
+            known_count[0] += sig is not None
+            if n_same < (40 if sig is None else 5):
                 viol.append({"what": "[real:%s] %s" % (label, m), "input": {"scenario": label, "faults": [list(x) for x in plan]},
                              "sig": sig})
 
@@ -706,6 +710,7 @@ def run(tier, seed, only=None):
         info["non_stack_roots"] = nroots
     info["notes"] = notes_total
     info["finding_candidates_not_in_known_findings"] = candidates
+    info["known_finding_reproductions"] = known_count[0]
     info["hooks"] = HOOKS
     known = [s_ for s_ in known_sigs if any(v.get("sig") == s_ for v in viol)]
     return dict(evaluations=evals, violations=viol, info=info, known_reproduced=known)
